@@ -15,7 +15,7 @@
    the hypothesis that names the excluded class. *)
 From HV Require Import Base.Prelude Base.Outcome Base.Bytes Spec.Parse Spec.Format Spec.FormatMsg
   Model.CodecMsg Model.CodecType Model.CodecLink Model.CodecAttr Model.CodecSuper
-  Proofs.ReaderSpecBase Proofs.ReaderSpecDataspace Proofs.ReaderSpecLayout Proofs.ReaderSpecLink Proofs.ReaderSpecSuper Proofs.ReaderSpecAttr.
+  Proofs.ReaderSpecBase Proofs.ReaderSpecDataspace Proofs.ReaderSpecLayout Proofs.ReaderSpecLink Proofs.ReaderSpecSuper Proofs.ReaderSpecAttr Proofs.ReaderSpecType.
 
 (* ------------------------------------------------------------------ dataspace (versions 1 and 2; scalar, simple, null;
    maximum extents).  The reader is not told the size of lengths: it infers 8- or 4-byte extents from the message length.
@@ -57,6 +57,19 @@ Theorem C06_reader_layout : forall (osz lsz : nat) (sbver : N) (pad_ok : bool) (
   err_or (ly_agree L) (dec_layout (sb_of sbver osz lsz) bs).
 Proof. exact layout_reader_spec. Qed.
 Print Assumptions C06_reader_layout.
+
+(* ------------------------------------------------------------------ datatype, classes 0 (fixed point), 1 (floating point),
+   3 (string): for every message of bytes (< 256) with that class nibble which the strict specification decoder accepts, the
+   reader returns Ok (never an error, never a panic) with the same class, version and size, and the class bit field from
+   which byte order, padding bits, sign / mantissa normalisation / sign location / string padding / character set are read
+   (dt_agree).  The property bytes (bit offset, precision, exponent and mantissa layout, bias) are handed back raw. *)
+Theorem C06_reader_datatype_fixed_float_string : forall (pad_ok : bool) (bs : bytes) (t : dtype) (tg : list tag),
+  bytes_ok bs = true ->
+  dt_class_nibble bs = 0 \/ dt_class_nibble bs = 1 \/ dt_class_nibble bs = 3 ->
+  spec_dec_datatype strict pad_ok bs = Ok (t, tg) ->
+  exists v, dec_datatype bs = Ok v /\ dt_agree t v.
+Proof. exact datatype_reader_spec. Qed.
+Print Assumptions C06_reader_datatype_fixed_float_string.
 
 (* ------------------------------------------------------------------ symbol table message: the reader always takes two
    8-byte addresses; right for 8-byte offsets, an error (message shorter than 16 bytes) for smaller ones *)
